@@ -35,6 +35,7 @@ class Sandbox:
         self.cache_path = tuple(cache_path)
         self.clock = 0
         self.cache_serials = {}     # sha256(bytes) -> serial
+        self.cache_docs = {}        # decompressed text -> serial
         self.planted = {}           # sha256(bytes) -> content id of planted non-padded files
 
     # -- projection -------------------------------------------------------
@@ -87,6 +88,12 @@ class Sandbox:
         with open(filename, 'rb') as f:
             data = f.read()
         h = hashlib.sha256(data).hexdigest()
+        if h not in self.cache_serials and h not in self.planted and filename == self.cache_file():
+            # a corruption the library cannot notice (e.g. a flipped bit in the gzip header's
+            # mtime/OS bytes) leaves a cache with identical content: that is the same cache
+            dec = self._decode_cache(data)
+            if dec is not None and dec in self.cache_docs:
+                self.cache_serials[h] = self.cache_docs[dec]
         if h in self.cache_serials:
             c = 'K%d' % self.cache_serials[h]
         elif h in self.planted:
@@ -122,14 +129,26 @@ class Sandbox:
             return out, inos
         return out
 
+    @staticmethod
+    def _decode_cache(data):
+        import gzip
+        try:
+            return gzip.decompress(data).decode()
+        except Exception:
+            return None
+
     def register_cache(self):
         """Give the current cache-file bytes a serial (after a committed build)."""
         fn = self.cache_file()
         if os.path.isfile(fn):
             with open(fn, 'rb') as f:
-                h = hashlib.sha256(f.read()).hexdigest()
+                data = f.read()
+            h = hashlib.sha256(data).hexdigest()
             if h not in self.cache_serials:
-                self.cache_serials[h] = len(self.cache_serials) + 1
+                self.cache_serials[h] = max(list(self.cache_serials.values()) + [0]) + 1
+                dec = self._decode_cache(data)
+                if dec is not None:
+                    self.cache_docs[dec] = self.cache_serials[h]
             return self.cache_serials[h]
         return 0
 
@@ -175,6 +194,8 @@ class Sandbox:
                 os.rmdir(fn)
         elif do == 'mkdir':
             self._force_dirs(fn)
+        elif do == 'corrupt_cache':
+            self.corrupt_cache(step['how'], step.get('arg', 0))
         elif do == 'plant_raw':
             # arbitrary bytes (cache corruption classes); content id given by caller
             self._force_dirs(os.path.dirname(fn))
@@ -187,6 +208,65 @@ class Sandbox:
             self.set_mtime(fn, step.get('mt') or self.tick())
         else:
             raise ValueError(do)
+
+    def corrupt_cache(self, how, arg=0):
+        """Derive a refused cache file from the real one of this history (C15)."""
+        import gzip
+        import json
+        fn = self.cache_file()
+        if how == 'dir':
+            if os.path.lexists(fn) and not os.path.isdir(fn):
+                os.remove(fn)
+            os.makedirs(fn, exist_ok=True)
+            return
+        if not os.path.isfile(fn):
+            return
+        with open(fn, 'rb') as f:
+            raw = f.read()
+        try:
+            doc = json.loads(gzip.decompress(raw).decode())
+            if not (isinstance(doc, dict) and 'rootOperations' in doc and 'software' in doc):
+                doc = None
+        except Exception:
+            doc = None
+        if how == 'truncate':
+            cuts = [1, 5, 10, len(raw) // 2, len(raw) - 8, len(raw) - 1]
+            data = raw[:max(1, cuts[arg % len(cuts)])]
+        elif how == 'bitflip':
+            i = (arg * 7919) % max(1, len(raw))
+            raw = raw or b"\0"
+            data = raw[:i] + bytes([raw[i] ^ (1 << (arg % 8))]) + raw[i + 1:]
+        elif how == 'notgzip':
+            data = b'this is not a gzip file\n'
+        elif how == 'empty':
+            data = b''
+        elif how == 'gzip_nonjson':
+            data = gzip.compress(b'{not json')
+        elif how == 'json_nonobject':
+            data = gzip.compress(b'[1, 2, 3]')
+        elif how == 'other_software' and doc is not None:
+            doc['software'] = 'something_else'
+            data = gzip.compress(json.dumps(doc).encode())
+        elif how == 'newer_format' and doc is not None:
+            doc['cacheFileVersion'] = 2
+            data = gzip.compress(json.dumps(doc).encode())
+        elif how == 'missing_key' and doc is not None:
+            del doc['rootOperations']
+            data = gzip.compress(json.dumps(doc).encode())
+        elif how == 'other_name' and doc is not None:
+            doc['buildName'] = 'another build'
+            data = gzip.compress(json.dumps(doc).encode())
+        else:
+            data = b'garbage'
+        with open(fn, 'wb') as f:
+            f.write(data)
+        h = hashlib.sha256(data).hexdigest()
+        dec = self._decode_cache(data)
+        if dec is not None and dec in self.cache_docs:
+            self.cache_serials.setdefault(h, self.cache_docs[dec])     # undetectable corruption
+        if h not in self.cache_serials:
+            self.planted[h] = 'X' + how
+        self.set_mtime(fn, self.tick())
 
     def destroy(self):
         shutil.rmtree(self.top, ignore_errors=True)
